@@ -79,8 +79,8 @@ var (
 	onlyIdx   = -1
 	watchdogS = 0
 	verifDir  string
-	repoDir  = "/repo"
-	workers  = runtime.NumCPU()
+	repoDir   = "/repo"
+	workers   = runtime.NumCPU()
 )
 
 func fatal2(format string, a ...interface{}) {
@@ -211,10 +211,21 @@ func runProc(worker string, sp spec, timeout time.Duration) ([]sim.Result, strin
 	}
 	cmd := exec.Command(worker, "-test.run", "^TestWorker$", "-test.timeout", "0", "-kg.in", in, "-kg.out", out)
 	cmd.Dir = dir
-	cmd.Env = append(os.Environ(), "GOMAXPROCS=1", "GODEBUG=randseednop=0", "GOTRACEBACK=all")
+	cmd.Env = append(os.Environ(), "GOMAXPROCS=1", "GODEBUG=randseednop=0,asyncpreemptoff=1", "GOTRACEBACK=all")
+	if len(sp.Runs) == 1 {
+		// one run per process (bubble worlds, where goroutines other than the
+		// driver run under the Go scheduler): no garbage collection cycles, so no
+		// goroutine is ever descheduled for one; which goroutine runs next then
+		// depends on the program alone
+		cmd.Env = append(cmd.Env, "GOGC=off")
+	}
 	var stderr strings.Builder
 	cmd.Stderr = &limitWriter{w: &stderr, max: 1 << 20}
 	cmd.Stdout = &limitWriter{w: &stderr, max: 1 << 20}
+	if os.Getenv("KG_KLOG_V") != "" {
+		// debugging aid: the system's own log of the run
+		cmd.Stderr = os.Stderr
+	}
 	if err := cmd.Start(); err != nil {
 		return nil, "", err
 	}
